@@ -513,6 +513,7 @@ func init() {
 		Real:        []string{"smtp.Server.Serve/handleConn", "smtp.Conn handleDataLMTP, handleBdat (LMTP), statusCollector, delivery goroutines, panic recovery", "io.Pipe", "net/textproto", "bufio"},
 		Stub:        []string{"net.Listener (SimListener)", "net.Conn (SimConn)", "Backend/LMTPSession/StatusCollector caller (SimBackend)", "clock (synctest)", "LMTP client (raw driver)"},
 		Assumptions: []string{"statuses a backend set explicitly before it panicked are honoured; the others must not be 2xx", "out-of-contract backends are judged only for no deadlock / no crash"},
+		Required:    []string{"backend_fails_early_during_LAST_chunk", "backend_panic_logged_to_slow_sink", "duplicate_recipient", "out_of_contract_backend", "rejected_rcpt_interleaved", "backend_panic"},
 		QuickRuns:   200000, ThoroughRuns: 4000000,
 	})
 }
